@@ -184,6 +184,7 @@ pub fn run(tier: Tier, replay: Option<&str>) -> i32 {
     progs.extend(progs::plain_programs(200_000));
     progs.extend(progs::escape_programs());
     progs.extend(progs::id_programs());
+    progs.extend(progs::alias_method_programs());
     progs.dedup();
     let n = progs.len() as u64;
     let mut rep = ctx.par_range("U_P programs x two printers", n, 16, || (), |_, i, rep| {
@@ -253,7 +254,7 @@ pub fn run(tier: Tier, replay: Option<&str>) -> i32 {
     finish(
         &ctx,
         rep,
-        "programs = U_P (well-formed by construction: every type constructor; numeric, named, quoted, keyword, target-language-keyword and hostile labels and method names in every position; every one- and two-character name over 17 escape-relevant characters as field label, variant tag and method name; numeric ids of every decimal length (1..10 digits, at the digit-group boundaries); recursive and mutually recursive definitions; service constructors with init args; definitions aliasing functions and services; named-service actors). Each is parsed and checked by the real front end, printed by pretty::candid::compile and by syntax::pretty_print, re-parsed and re-checked; every definition and the service must be structurally equal (R3 bisimulation through the bridge, and candid's own equal / service_equal) to the program's denotation; printing twice gives identical text; instantiate_candid and get_metadata work on the result. Rust side: TypeContainer::add of every corpus type on a fresh thread, printed, re-parsed, compared with the specified type. Non-trivial = prints that re-check to an equal interface.",
+        "programs = U_P (well-formed by construction: every type constructor; numeric, named, quoted, keyword, target-language-keyword and hostile labels and method names in every position; every one- and two-character name over 17 escape-relevant characters as field label, variant tag and method name; numeric ids of every decimal length (1..10 digits, at the digit-group boundaries); service definitions whose methods go through alias chains to a function definition, under all 24 assignments of ordered names to the roles, in dependency order and reversed; recursive and mutually recursive definitions; service constructors with init args; definitions aliasing functions and services; named-service actors). Each is parsed and checked by the real front end, printed by pretty::candid::compile and by syntax::pretty_print, re-parsed and re-checked; every definition and the service must be structurally equal (R3 bisimulation through the bridge, and candid's own equal / service_equal) to the program's denotation; printing twice gives identical text; instantiate_candid and get_metadata work on the result. Rust side: TypeContainer::add of every corpus type on a fresh thread, printed, re-parsed, compared with the specified type. Non-trivial = prints that re-check to an equal interface.",
         &["Prog::to_did / to_model (trusted printer and denotation of generated programs)", "R3 structural equality"],
         json!({}),
     )
